@@ -519,7 +519,57 @@ def r04_8(ctx: Ctx, rule: str = "R04.8") -> None:
     ctx.floor(rule, n, 1, "catch-all handlers in the folder task")
 
 
+def r04_12(ctx: Ctx) -> None:
+    """(a) test() certifies ('return True') only when every packed stream was verified: the arm of the per-stream loop that has no CRC to
+    compare against records that fact, and the final verdict depends on it.  (b) the packed-stream CRC of an ENCODED HEADER is compared:
+    it is a stored digest like any other and may be the only one that protects the header stream (folder CRC absent)."""
+    t = shared.szf(ctx, "test")
+    loops = [n for n in walk(t.node) if isinstance(n, ast.For) and any(isinstance(c, ast.Call) and attr_tail(c) == "_read_digest" for c in ast.walk(n))]
+    ctx.floor("R04.12", len(loops), 1, "per-stream verification loop of test()")
+    for lp in loops:
+        # names assigned inside the loop on a path that does NOT call _read_digest
+        skipped_flags = set()
+        for st in ast.walk(lp):
+            if isinstance(st, ast.If):
+                for arm in (st.body, st.orelse):
+                    if arm and not any(isinstance(c, ast.Call) and attr_tail(c) == "_read_digest" for x in arm for c in ast.walk(x)):
+                        skipped_flags |= {tg.id for x in arm for a in ast.walk(x) if isinstance(a, ast.Assign) for tg in a.targets if isinstance(tg, ast.Name)}
+        # does every iteration verify? (no conditional around _read_digest)
+        cfg = cfg_of(t.node)
+        dn = [q.node_for(t, c) for c in q.calls(t) if attr_tail(c) == "_read_digest"]
+        it = cfg.by_ast[lp]
+        body = next(s_ for s_ in it.succ if s_.kind == "body")
+        always = not cfg.reaches(body, it, avoid=dn, normal_only=True)
+        trues = [r for r in walk(t.node) if isinstance(r, ast.Return) and r.value is not None and cfg.reaches(it, q.node_for(t, r)) and not any(x is r for x in ast.walk(lp))]
+        for r in trues:
+            certifies = isinstance(r.value, ast.Constant) and r.value.value is True
+            depends = any(isinstance(x, ast.Name) and x.id in skipped_flags for x in ast.walk(r.value)) or \
+                any(any(isinstance(x, ast.Name) and x.id in skipped_flags for x in ast.walk(cd)) for cd, pol in q.facts_at(t, r))
+            ctx.check(always or depends or not certifies, "R04.12", t, r, "test() returns True only when every packed stream was verified",
+                      "test() skips the packed streams that have no CRC and still ends in `return True`: damage in such a stream is certified as good while extractall() raises "
+                      "CrcError for the same archive (partially defined packed-stream CRCs)", construct="test() verdict with unverified streams")
+    h = ctx.prog.func("archiveinfo", "Header._read")
+    cmps = [n for n in walk(h.node) if isinstance(n, ast.Compare) and any(isinstance(x, ast.Attribute) and x.attr == "crcs" for x in ast.walk(n))
+            and any(isinstance(x, ast.Call) and attr_tail(x) == "calculate_crc32" for x in ast.walk(n))]
+    ok = False
+    hcfg = cfg_of(h.node)
+    for c in cmps:
+        for tn in hcfg.nodes:
+            if tn.kind == "test" and any(x is c for x in ast.walk(tn.ast)):
+                pol = _mismatch_edge(c)
+                if pol is not None:
+                    e = next((s_ for s_ in tn.succ if s_.kind == ("true" if pol else "false")), None)
+                    ok = ok or (e is not None and q.branch_always_raises(hcfg, e))
+    ctx.check(ok, "R04.12", h, h.node, "the packed-stream CRC of an encoded header is compared",
+              "Header._read parses the packed-stream CRC of an encoded header (PackInfo kCRC) but never compares it: when that CRC is the only digest of the header stream "
+              "(no folder CRC - a legal layout) a flipped bit in the packed header is accepted and members are delivered under wrong names, or not at all, with success",
+              construct="encoded header pack crc")
+
+
 def run(ctx: Ctx) -> None:
+    from . import c11 as _c11
+    _c11.r11_7(ctx, rule="R04.13")  # no wrong bytes stay on disk behind a CrcError
+    r04_12(ctx)
     from . import c12 as _c12
     _c12.r12_6(ctx, rule="R04.11")  # testzip must give its verdict for stream archives too
     from . import c06 as _c06x
